@@ -912,6 +912,17 @@ def _attach_cases(chk, name, cases, fn, classify_fn=None, keep_unknown=5, keep_k
     mine = [f for f in chk.failures if f['oracle'] == name]
     others = [f for f in chk.failures if f['oracle'] != name]
     kept, n_known, n_unknown = [], {}, 0
+
+    def in_known_region(f):
+        # failures whose input lies outside every known-finding region are reported first (cleanest witness of something new)
+        c = by_repr.get(f['case']) if not isinstance(f['case'], dict) else None
+        if c is None:
+            return 0
+        ad = c[1].get('charge_adducts')
+        if ad is None and c[0]._charge_adducts:
+            ad = ','.join(str(m.val) for m in c[0]._charge_adducts)
+        return 1 if isinstance(ad, str) and _adduct_count_matters(ad) else 0
+    mine.sort(key=in_known_region)
     for f in mine:
         c = by_repr.get(f['case']) if not isinstance(f['case'], dict) else None
         if c is None:
@@ -929,7 +940,15 @@ def _attach_cases(chk, name, cases, fn, classify_fn=None, keep_unknown=5, keep_k
             if n_unknown >= keep_unknown:
                 continue
             n_unknown += 1
-            a, kw = shrink(c, fn)
+            # shrink towards a smaller input of the SAME kind: a step that turns the failure into a known finding is not taken
+            # (otherwise a new violation whose input also touches a known-finding region shrinks into the known finding and
+            # disappears from the report)
+            def still_unknown(c2, _f=f2):
+                d = fn(c2)
+                if d is None or not classify_fn:
+                    return d
+                return None if classify_fn({**_f, 'case': obj_of(*c2), 'detail': str(d)}) else d
+            a, kw = shrink(c, still_unknown)
             try:
                 f2['detail'] = str(fn((a, kw)))
             except Exception as e:  # noqa
